@@ -482,7 +482,11 @@ inline BadLen genBadLength(pbt::Src &src, bool request)
   case 16: b.kind = "chunk-size-0x"; withChunks("0x5\r\nhello\r\n0\r\n\r\n"); break;
   case 17: b.kind = "chunk-size-overflow-17-digits"; withChunks("10000000000000005\r\nhello\r\n0\r\n\r\n"); break;
   case 18: b.kind = "chunk-size-junk"; withChunks("5xyz\r\nhello\r\n0\r\n\r\n"); break;
-  case 19: b.kind = "chunk-data-no-crlf"; withChunks("5\r\nhelloXX\r\n0\r\n\r\n"); break;
+  case 19:
+    // a framer that skips two octets behind the data without looking finds a perfectly valid last chunk
+    b.kind = "chunk-data-no-crlf";
+    withChunks(src.coin() ? "5\r\nhelloXX0\r\n\r\n" : "5\r\nhelloXX\r\n0\r\n\r\n");
+    break;
   case 20: b.kind = "te-substring"; b.wire = start + common + te + ": " + src.oneOf<std::string>({"xchunked", "chunkedx", "not-chunked", "chunked, identity"}) + "\r\n\r\n5\r\nhello\r\n0\r\n\r\n"; break;
   default: b.kind = "te-substring"; b.wire = start + common + te + ": chunked;q=1, gzip\r\n\r\n5\r\nhello\r\n0\r\n\r\n"; break;
   }
